@@ -233,6 +233,14 @@ func ErrCode(err error) uint64 {
 		return 5
 	case strings.Contains(err.Error(), "invalid binder size"):
 		return 6
+	case strings.Contains(err.Error(), "too many supported point formats"):
+		return 7
+	case strings.Contains(err.Error(), "application settings protocol name too long"):
+		return 8
+	case strings.Contains(err.Error(), "renegotiated connection too long"):
+		return 9
+	case strings.Contains(err.Error(), "too many token binding key parameters"):
+		return 22
 	}
 	return 99
 }
@@ -657,6 +665,18 @@ func OverLimitGenerators() []Gen {
 		}},
 		{"FakeTokenBindingExtension#over", func(r *rand.Rand, size int) tls.TLSExtension {
 			return &tls.FakeTokenBindingExtension{KeyParameters: rb(r, 256+size)}
+		}},
+		// one protocol name of 256+size bytes between two short ones
+		{"ApplicationSettingsExtension#over", func(r *rand.Rand, size int) tls.TLSExtension {
+			return &tls.ApplicationSettingsExtension{SupportedProtocols: []string{"h2", lower(r, 256+size), "http/1.1"}}
+		}},
+		{"ApplicationSettingsExtensionNew#over", func(r *rand.Rand, size int) tls.TLSExtension {
+			return &tls.ApplicationSettingsExtensionNew{SupportedProtocols: []string{lower(r, 256+size)}}
+		}},
+		// ALPNExtension.Read still narrows byte(len(name)) (clientHandshake refuses such NextProtos
+		// before the hello is sent): correspondence of the narrowing only.
+		{"ALPNExtension#over", func(r *rand.Rand, size int) tls.TLSExtension {
+			return &tls.ALPNExtension{AlpnProtocols: []string{"h2", lower(r, 256+size)}}
 		}},
 	}
 }
